@@ -100,3 +100,10 @@ def classify(ops, res):
     at = res.diff_at if res.diff_at is not None else 0
     opname = ops[at].split()[0] if at < len(ops) else "?"
     return f"mismatch:{opname}", f"model and implementation disagree at line {res.diff_at} (`{opname}`) of ops {ops}"
+
+
+def run_types(fn, types_):
+    """run the correspondence of the element types two at a time (each is harness + driver processes)"""
+    from concurrent.futures import ThreadPoolExecutor
+    with ThreadPoolExecutor(max_workers=2) as ex:
+        return list(ex.map(fn, types_))
